@@ -369,6 +369,46 @@ def name4(ctx) -> List[Ob]:
     return out
 
 
+@rule("NAME-6", 1, "a name generator is never swapped for a fresh one because it *looks empty*: where a default generator is chosen with `gen or NameGenerator()` / `if not gen:`, the class defines neither __len__ nor __bool__ (an object without them is always true, so the test only catches None)")
+def name6(ctx) -> List[Ob]:
+    out: List[Ob] = []
+    prog = ctx.prog
+    ng = prog.cls("NameGenerator")
+    falsy = [m for m in ("__len__", "__bool__") if m in ng.methods]
+    n = 0
+    for fn in prog.functions:
+        for e in A.walk_no_nested(fn.node):
+            site = None
+            if isinstance(e, ast.BoolOp) and isinstance(e.op, ast.Or) and any(isinstance(v, ast.Call) and (A.dotted(v.func) or "").split(".")[-1] == "NameGenerator" for v in e.values[1:]):
+                site = e
+            elif isinstance(e, ast.IfExp) and any(isinstance(v, ast.Call) and (A.dotted(v.func) or "").split(".")[-1] == "NameGenerator" for v in (e.body, e.orelse)) and not isinstance(e.test, ast.Compare):
+                site = e
+            if site is None:
+                continue
+            n += 1
+            key = "default generator chosen by truth value: " + A.alpha_key(site)[:60]
+            if falsy:
+                out.append(bad("NAME-6", fn.qualname, key, ctx.where(fn, site), f"{A.unparse(site)[:60]} tests the truth value of a generator and NameGenerator defines {falsy[0]}: a generator that has handed out nothing yet is replaced by a fresh one - graphs that should share one generator (a graph and its sub-graphs built by the reader) count independently and hand out the same names"))
+            else:
+                out.append(ok("NAME-6", fn.qualname, key, ctx.where(fn, site), "NameGenerator has no __len__ / __bool__: the test is an `is None` test"))
+    if not n:
+        key = "NameGenerator truth value"
+        if falsy:
+            # no such test today, but the class can be false: every `if gen` / `gen or ..` elsewhere would misfire
+            uses = []
+            for fn in prog.functions:
+                for e in A.walk_no_nested(fn.node):
+                    if isinstance(e, (ast.If, ast.While, ast.IfExp)) and isinstance(e.test, (ast.Name, ast.Attribute)) and "name_gen" in A.unparse(e.test):
+                        uses.append((fn, e))
+            if uses:
+                out.append(bad("NAME-6", uses[0][0].qualname, key, ctx.where(uses[0][0], uses[0][1]), f"the truth value of a generator is tested and NameGenerator defines {falsy[0]}"))
+            else:
+                out.append(ok("NAME-6", ng.name, key, f"{ng.module.relpath}:{A.lineno(ng.node)}", f"NameGenerator defines {falsy[0]} but no code tests the truth value of a generator", nontrivial=False))
+        else:
+            out.append(ok("NAME-6", ng.name, key, f"{ng.module.relpath}:{A.lineno(ng.node)}", "NameGenerator defines neither __len__ nor __bool__: an instance is always true", nontrivial=False))
+    return out
+
+
 def _is_generator_copy(e: ast.AST) -> Optional[str]:
     """a generator built from (a copy of) another generator's counters: both count on independently from
     the same numbers, so the graphs they serve hand out the same names"""
